@@ -205,6 +205,12 @@ def jobs_for(chk):
         pi = ["nonparametric", "gaussian", "nonparametric", "gaussian", "bootstrap"][i % 5]
         stream = "stub" if (i // 5) % 2 == 1 and pi != "bootstrap" else "real"
         jobs.append((rng.randint(0, 2**31), {"pi_method": pi, "outlier": False}, stream))
+    # large gaussian elections: some groups hold >= 10 calibration units (own model), others fall back to the coarser model, so the
+    # matched-model frame is not in key order; with the stub solver the counted-vote floor binds in every group
+    for i in range(3 if chk.tier == "quick" else 24):
+        jobs.append((rng.randint(0, 2**31), {"pi_method": "gaussian", "outlier": False, "n_units": 260, "n_states": 1 + i % 2, "frac_reporting": 0.7,
+                                             "aggregates": ["postal_code", "county_classification", "county_fips", "unit"], "estimands": ["dem"], "alphas": [0.7, 0.9]},
+                     "stub" if i % 3 != 2 else "real"))
     # fully reporting: zero-width everywhere
     for pi in ("nonparametric", "gaussian"):
         jobs.append((rng.randint(0, 2**31), {"pi_method": pi, "outlier": False, "frac_reporting": 1.0, "special": False}, "real"))
